@@ -87,7 +87,8 @@ Record options := mkOpts {
   o_allowinvalid : bool;
   o_maxexpr : N;              (* 0 = unlimited *)
   o_entry : bytes;            (* [] = first rule *)
-  o_filename : bytes
+  o_filename : bytes;
+  o_initstate : store         (* the InitState options: what the state store holds when the parse starts *)
 }.
 
 (* External Unicode library behaviour (Go's unicode package): parameters, never axioms. *)
